@@ -193,6 +193,7 @@ def rule_r3(ctx: Ctx) -> None:
                 for j in range(2 if ci == 0 else 1):
                     scenarios.append(({"K1": _genes("a", 2), "K2": _genes("a", 1, 3)}, [j], ci))
             scenarios.append(({"K1": [], "K2": _genes("a", 1, 3)}, [0], 0))   # an empty gene list must stay empty
+            scenarios.append(({}, [0], 0))                                     # a genotype without genes yet (never mapped)
         bad = und = None
         changed_any = False
         for dna0, ints, ci in scenarios:
@@ -211,6 +212,10 @@ def rule_r3(ctx: Ctx) -> None:
                     continue
                 n += 1
                 child = rv.fields["dna"]
+                parent_obj = env_after.get(ps[0])
+                if rv is parent_obj or (isinstance(parent_obj, Obj) and child is parent_obj.fields.get("dna")):
+                    bad = bad or (f"for the genes {mk()!r} mutate returns the parent's own genotype (or its gene container): offspring and parent are "
+                                  f"one object, so whatever later grows or edits the offspring's genes in place changes the parent", None)
                 parent_after = env_after[ps[0]].fields["dna"] if isinstance(env_after.get(ps[0]), Obj) else None
                 if parent_after != mk():
                     bad = bad or (f"the parent's genes are {parent_after!r} after mutate (they were {mk()!r}): the parent is modified", None)
@@ -232,6 +237,8 @@ def rule_r3(ctx: Ctx) -> None:
                 for lo, hi, v in script.draw_ranges:
                     L = len(dna0) if kind == "list" else None
                     if kind == "dict":
+                        if not dna0:
+                            continue
                         key = list(dna0.keys())[ci % len(dna0)]
                         L = len(dna0[key])
                     if not (isinstance(lo, int) and isinstance(hi, int)):
